@@ -80,7 +80,8 @@ CLAIMED = {
              'bits and three magnitude bits above the point, which covers every type of the quantifier) and EVERY operand: no panic and no debug-only check; Err only for negative operands or '
              'operands in (0,1) whose reciprocal is not representable; otherwise 0 <= r and (r-4)^2 <= X <= (r+4)^2 (exact integer bracket = 4 ulp), exact at 0 and 1; on the direct path the '
              'result is within ONE ulp. Proof: the loop is the integer Newton iteration; halving phase + quadratic phase convergence within int_bits/2+8 steps (the code runs >= int_bits/2+10 '
-             'after fix d5514a8, which this check motivated). Correspondence + exact bracket verdict in the driver + mpmath search oracle.',
+             'after fix d5514a8, which this check motivated). Correspondence + exact bracket verdict in the driver + mpmath search oracle. '
+             'SfxProps/C13Real.lean (holds_real) reads the integer bracket as the property\'s sentence over Mathlib\'s Real.sqrt: |r - sqrt x| <= 4 ulp for every From<S> pair.',
         design_ref='7/C13', note=COMMON_NOTE + ' mpmath is used only to search for failing inputs.', technique='Lean 4 proof (integer Newton convergence) over executable model + differential correspondence'),
     'C11': dict(
         text='Every model function returns ONE Outcome (release value + "a debug-only check fires" flag); theorem profiles_agree: whenever the checking build returns it returns the '
